@@ -261,4 +261,11 @@ func init() {
 	rcBody := `(?s)import "strings"\n(.*?)\tnewString := make\(\[\]rune, length\)\n\tfor _, base := range complementString \{\n\t\tlength--\n\t\tnewString\[length\] = base\n\t\}\n\treturn string\(newString\)\n`
 	fire("C11", "scratch-runes-put-back-before-they-are-copied", "transform/transform.go", rcBody, pooledRunes("\truneBuffers.Put(buffer)\n\treturn string(newString)\n"), "STATE/pool-use-after-put")
 	silent("C11", "scratch-runes-copied-before-they-are-put-back", "transform/transform.go", rcBody, pooledRunes("\treversed := string(newString)\n\truneBuffers.Put(buffer)\n\treturn reversed\n"))
+	// round 15
+	inPlace := func(bound string) string {
+		return "\tbases := []rune(sequence)\n\tlast := len(bases) - 1\n\tfor index := 0; " + bound + "; index++ {\n\t\tbases[index], bases[last-index] = bases[last-index], bases[index]\n\t}\n\treturn string(bases)\n}\n\n// ComplementBase"
+	}
+	revBody := `(?s)\tlength := len\(sequence\)\n\tnewString := make\(\[\]rune, length\)\n\tfor _, base := range sequence \{\n\t\tlength--\n\t\tnewString\[length\] = base\n\t\}\n\treturn string\(newString\)\n\}\n\n// ComplementBase`
+	fire("C11", "reversed-in-place-stopping-short-of-the-centre", "transform/transform.go", revBody, inPlace("index < last/2"), "STATE/swap-reversal")
+	silent("C11", "reversed-in-place-up-to-the-centre", "transform/transform.go", revBody, inPlace("index < len(bases)/2"))
 }
